@@ -441,6 +441,9 @@ def native(seed=0, reduced=False):
     # a hole whose polygon carries mesh=False (e.g. a polygon that served as a terminal of another device before) is still a hole
     hole_nm = tdgl.Polygon("slot", points=box(1.2, 0.5), mesh=False)
     fam.append(dict(film=box(4, 2), holes=[hole_nm], terms=False, centre=(0.0, 0.0), mel=0.45, smooth=0))
+    # a device laid out in chip coordinates, 5e5 coherence lengths from the origin: the dual mesh must be as good there as at the origin
+    far_ = (4.0e5, -3.0e5)
+    fam.append(dict(film=box(4, 2, center=far_), holes=[circle(0.4, center=far_)], terms=False, centre=far_, mel=0.45, smooth=0))
     # the mesher's no-refinement path (max_edge_length <= 0): coarse mesh of an off-centre device
     fam.append(dict(film=box(4, 2, center=(7.5, -3.0), points=41), holes=[circle(0.4, center=(7.5, -3.0), points=21)], terms=False, centre=(7.5, -3.0), mel=0, smooth=0))
     # a device translated in place gets a new mesh; a copy made before (copies and Solutions share the Mesh object) keeps a mesh that still
